@@ -49,12 +49,23 @@ fn token_of(t: u8) -> Vec<u8> {
     }
 }
 
-fn actions(wide: bool) -> Vec<Act> {
-    // default: 2 endpoints x 2 tokens x 2 paths; wide: 3 endpoints x 3 tokens on ONE observed path
-    // (the reachable set is the product of the per-path sets, so widening both at once is out of reach)
-    let eps: Vec<u32> = if wide { vec![1, 2, 3] } else { vec![1, 2] };
-    let toks: Vec<u8> = if wide { vec![0, 1, 2] } else { vec![0, 1] };
-    let paths: Vec<&'static str> = if wide { vec![P1] } else { vec![P1, P2] };
+const P3: &str = "v";
+
+fn actions(mode: u8) -> Vec<Act> {
+    // mode 0: 2 endpoints x 2 tokens x 2 paths; 1: 3 endpoints x 3 tokens on ONE observed path; 2: 2 endpoints x
+    // 1 token x THREE paths (the reachable set is the product of the per-path sets, so widening everything at once
+    // is out of reach)
+    let eps: Vec<u32> = if mode == 1 { vec![1, 2, 3] } else { vec![1, 2] };
+    let toks: Vec<u8> = match mode {
+        1 => vec![0, 1, 2],
+        2 => vec![0],
+        _ => vec![0, 1],
+    };
+    let paths: Vec<&'static str> = match mode {
+        1 => vec![P1],
+        2 => vec![P1, P2, P3],
+        _ => vec![P1, P2],
+    };
     let mut a = Vec::new();
     for &e in &eps {
         for &t in &toks {
@@ -87,7 +98,7 @@ struct St {
 type Snap = BTreeMap<String, (u32, Vec<(u32, Vec<u8>, u64, Option<u16>)>)>;
 
 fn snapshot(s: &Subject<Ep>) -> Snap {
-    let mut paths: Vec<String> = vec![P1.into(), P2.into(), PNEVER.into()];
+    let mut paths: Vec<String> = vec![P1.into(), P2.into(), P3.into(), PNEVER.into()];
     for p in s.verif_resource_paths() {
         if !paths.contains(&p) {
             paths.push(p);
@@ -260,20 +271,20 @@ fn key_of(snap: &Snap, limit: u64) -> (Vec<(String, Vec<(u32, Vec<u8>, u64, Opti
     (snap.iter().map(|(p, (_, o))| (p.clone(), o.clone())).collect(), limit)
 }
 
-fn bfs_limit(prop: Prop, ctx: &Ctx, rep: &mut Report, limit: u8, with_setlimit: bool, wide: bool) {
-    let mut acts = actions(wide);
+fn bfs_limit(prop: Prop, ctx: &Ctx, rep: &mut Report, limit: u8, with_setlimit: bool, mode: u8) {
+    let mut acts = actions(mode);
     if with_setlimit {
         for l in [0u8, 1, 2] {
             acts.push(Act::SetLimit(l));
         }
     }
     let pname = if prop == Prop::C14 { "C14" } else { "C15" };
-    let name = format!("bfs-limit{}{}{}", limit, if with_setlimit { "-setlimit" } else { "" }, if wide { "-3endpoints-3tokens-1path" } else { "" });
+    let name = format!("bfs-limit{}{}{}", limit, if with_setlimit { "-setlimit" } else { "" }, match mode { 1 => "-3endpoints-3tokens-1path", 2 => "-2endpoints-1token-3paths", _ => "" });
     let desc = format!(
         "closed BFS of the real Subject with unacknowledged limit {}: {} actions ({}; notification rounds on the observed path(s) + 1 never-registered path x 2 message ids x CON/NON, acknowledgements from each endpoint + a stranger x 2 ids{}); canonical key = per path the ordered observers (endpoint, token, count, pending id), sequence excluded",
         limit,
         acts.len(),
-        if wide { "register/deregister x 3 endpoints x 3 tokens x 1 path" } else { "register/deregister x 2 endpoints x 2 tokens x 2 paths" },
+        match mode { 1 => "register/deregister x 3 endpoints x 3 tokens x 1 path", 2 => "register/deregister x 2 endpoints x 1 token x 3 paths", _ => "register/deregister x 2 endpoints x 2 tokens x 2 paths" },
         if with_setlimit { ", set_unacknowledged_limit 0/1/2" } else { "" }
     );
     let st = bfs::run(
@@ -339,13 +350,15 @@ fn bfs_limit(prop: Prop, ctx: &Ctx, rep: &mut Report, limit: u8, with_setlimit: 
 
 pub fn run_c14(ctx: &Ctx, rep: &mut Report) {
     for l in [0u8, 1, 2] {
-        bfs_limit(Prop::C14, ctx, rep, l, false, false);
+        bfs_limit(Prop::C14, ctx, rep, l, false, 0);
     }
-    bfs_limit(Prop::C14, ctx, rep, 1, false, true);
+    bfs_limit(Prop::C14, ctx, rep, 1, false, 1);
+    bfs_limit(Prop::C14, ctx, rep, 0, false, 2);
     if ctx.thorough() {
-        bfs_limit(Prop::C14, ctx, rep, 3, false, false);
-        bfs_limit(Prop::C14, ctx, rep, 2, false, true);
-        bfs_limit(Prop::C14, ctx, rep, 1, true, false);
+        bfs_limit(Prop::C14, ctx, rep, 3, false, 0);
+        bfs_limit(Prop::C14, ctx, rep, 2, false, 1);
+        bfs_limit(Prop::C14, ctx, rep, 1, true, 0);
+        bfs_limit(Prop::C14, ctx, rep, 1, false, 2);
     }
     rep.assume("refmodel::subject is the trusted reference; entry existence for a path whose observers all left and its sequence in unobserved rounds are not fixed by the statement and follow the implementation");
     rep.assume("hook accessors (cfg coap_lite_verif) expose the per-observer count and pending id for the canonical key; endpoint/token/order/sequence come from the public API");
@@ -525,13 +538,15 @@ fn notifications(ctx: &Ctx, rep: &mut Report) {
 
 pub fn run_c15(ctx: &Ctx, rep: &mut Report) {
     for l in [0u8, 1, 2] {
-        bfs_limit(Prop::C15, ctx, rep, l, false, false);
+        bfs_limit(Prop::C15, ctx, rep, l, false, 0);
     }
-    bfs_limit(Prop::C15, ctx, rep, 1, false, true);
+    bfs_limit(Prop::C15, ctx, rep, 1, false, 1);
+    bfs_limit(Prop::C15, ctx, rep, 0, false, 2);
     if ctx.thorough() {
-        bfs_limit(Prop::C15, ctx, rep, 3, false, false);
-        bfs_limit(Prop::C15, ctx, rep, 2, false, true);
-        bfs_limit(Prop::C15, ctx, rep, 1, true, false);
+        bfs_limit(Prop::C15, ctx, rep, 3, false, 0);
+        bfs_limit(Prop::C15, ctx, rep, 2, false, 1);
+        bfs_limit(Prop::C15, ctx, rep, 1, true, 0);
+        bfs_limit(Prop::C15, ctx, rep, 1, false, 2);
     }
     directed(ctx, rep);
     notifications(ctx, rep);
